@@ -117,6 +117,10 @@ class ProgGen:
         self.features = features or {"match", "loops", "helpers", "structs", "assign", "impure", "shadow", "untyped"}
         self.shadow_p = 0.15 if "shadow" in self.features else 0.0
         self.stats = {}
+        # most programs use small numbers, so that most checked operations complete and the effects of the statements
+        # that follow are observed (with random numbers of the full range 70 % of all runs ended in an overflow)
+        self.calm = rng.random() < 0.8
+        self.stress = "stress" in self.features or "core" in self.features
 
     # ------------------------------------------------------------------ utilities
     def note(self, k):
@@ -210,7 +214,7 @@ class ProgGen:
                  ["enum", ty["name"], variant, False, [e.ast for e in es]])
 
     def lit(self, ty, boundary=0.3):
-        if "core" in self.features and ty["k"] == "int" and self.rng.random() < 0.7:
+        if ("core" in self.features or self.calm) and ty["k"] == "int" and self.rng.random() < (0.7 if "core" in self.features else 0.85):
             # small numbers: most checked additions and subtractions of the fragment then complete
             lo, hi = T.int_range(ty["t"])
             return self.val_expr(ty, self.rng.choice([v for v in (0, 1, 2, 3, 5, 7, 10, -1, -2, -5) if lo <= v <= hi]))
@@ -369,7 +373,32 @@ class ProgGen:
 
     def e_logic(self, ty, d, pure):
         op = self.rng.choice(["&&", "||", "&&", "||", "&", "|", "^"])
-        return self.binop(op, BOOL, self.expr(BOOL, d - 1, pure), self.expr(BOOL, d - 1, pure))
+        a = self.expr(BOOL, d - 1, pure)
+        visible = {}
+        for v in self.scope:
+            visible[v["name"]] = v
+        muts = [v for v in self.scope if v["mut"] and visible[v["name"]] is v]
+        if not pure and op in ("&&", "||") and muts and "assign" in self.features and self.rng.random() < 0.4:
+            # the right operand assigns to a variable of the enclosing scopes: the assignment counts only if the
+            # operand runs (`mux_envs` by the left operand)
+            mark = len(self.scope)
+            scalars = [m for m in muts if m["ty"]["k"] in ("bool", "int")]
+            if scalars and self.rng.random() < 0.7:
+                # a visible change: `m = !m`, `m = m ^ 1`
+                m = self.rng.choice(scalars)
+                if m["ty"]["k"] == "bool":
+                    st = (f"{m['name']} = !{m['name']};", ["assign", m["name"], [], ["un", "not", BOOL, ["var", m["name"]]]])
+                else:
+                    one = self.val_expr(m["ty"], 1)
+                    st = (f"{m['name']} = {m['name']} ^ {one.text};", ["assign", m["name"], [], ["bin", "^", m["ty"], ["var", m["name"]], one.ast]])
+            else:
+                st = self.s_assign(max(0, d - 1), False, muts)
+            v = self.expr(BOOL, max(0, d - 2), True)
+            del self.scope[mark:]
+            texts, asts = join_stmts([st, (v.text, ["expr", v.ast])])
+            self.note("logic-rhs-assigns")
+            return self.binop(op, BOOL, a, E("{ " + " ".join(texts) + " }", ["block", asts], 0))
+        return self.binop(op, BOOL, a, self.expr(BOOL, d - 1, pure))
 
     def e_if(self, ty, d, pure):
         c = self.expr_nostruct(BOOL, d - 1, pure) or E("true", ["bool", True])
@@ -619,7 +648,9 @@ class ProgGen:
                 if "loops" in self.features:
                     choices += ["for", "for"]
         c = self.rng.choice(choices)
-        if "assign" in self.features and ("core" not in self.features or "agg" in self.features) and not pure and self.rng.random() < 0.06:
+        # statements built to fail (an index out of bounds before a failing index expression) are frequent only under
+        # "stress" (the C02 stream): a program that always panics shows nothing of the statements after the failure
+        if "assign" in self.features and ("core" not in self.features or "agg" in self.features) and not pure and self.rng.random() < (0.06 if self.stress else 0.012):
             c = "nestedassign"
         self.note("stmt:" + c)
         return getattr(self, "s_" + c)(d, pure, muts)
@@ -642,14 +673,14 @@ class ProgGen:
             pre = (f"let mut {name} = {init.text};", ["letmut", name, init.ast])
         n, m = ty["n"], ty["elem"]["n"]
         r = self.rng.random()
-        if r < 0.5:
+        if r < (0.5 if self.stress else 0.2):
             i = self.val_expr(USIZE, n + self.rng.choice([0, 1, 5]))
         elif r < 0.75:
             i = self.binop("%", USIZE, self.expr(USIZE, d - 1, True), self.val_expr(USIZE, n + 1))
         else:
             i = self.val_expr(USIZE, self.rng.randrange(n))
         r = self.rng.random()
-        if r < 0.6:
+        if r < (0.6 if self.stress else 0.25):
             j = self.failing_usize(d)
         elif r < 0.8:
             j = self.binop("%", USIZE, self.expr(USIZE, d - 1, True), self.val_expr(USIZE, m))
@@ -702,14 +733,14 @@ class ProgGen:
             k = ty["k"]
             if k == "array" and ty["n"] > 0:
                 r = self.rng.random()
-                if oob and r < 0.75 or r > 0.95:
+                if oob and r < 0.75 or r > (0.95 if self.stress else 0.985):
                     # an index expression that fails itself; after an index that is out of bounds the access to the
                     # outer array is the first failing operation (its bounds are checked before the next index runs)
                     i = self.failing_usize(d)
                     self.note("assign-index-fails" + ("-after-oob" if oob else ""))
                 elif r < 0.7:
                     i = self.val_expr(USIZE, self.rng.randrange(ty["n"]))
-                elif r < 0.8:
+                elif r < (0.8 if self.stress else 0.73):
                     i = self.val_expr(USIZE, ty["n"] + self.rng.choice([0, 2]))
                     oob = True
                 else:
